@@ -108,6 +108,22 @@ CLAIMED = {
    note=TRUST + "Partial: that an update which passes the up-front timestamp validation can no longer be refused for an early "
         "timestamp deeper down is covered by the correspondence runs, not yet by a theorem. Clocks are excluded (not in the property's list).",
    design="7/C15", technique="Coq proof by case analysis on the step function + model/implementation correspondence check"),
+ 'C16': dict(
+   text="Machine-checked theorems (props/C16.v): after any price stream the N-window is the most recent N prices; momentum over the "
+        "(N+1)-window == last/first - 1 (telescoping), 0 while warming up; SMA == mean of the window; volatility^2 == 252 x population "
+        "variance of the window's simple returns; and whatever interleaving of appends for whatever assets/lookbacks happened, the window "
+        "for (asset, N) is a function of that asset's own stream and N only. Tied to /repo by the real Momentum/SMA/Volatility signals on "
+        "random interleaved positive streams (after every append) and, for long lookbacks, by the definitions in exact arithmetic.",
+   note=TRUST + "sqrt is applied outside the model (the model carries the variance). The session cadence (one observation per business day, empty window on late entry) is covered by the backtest correspondence. Model comparison is limited to lookbacks <= 5 (exact rationals grow with the window); longer lookbacks are compared with the definitions only.",
+   design="7/C16", technique="Coq proof (list suffix lemmas, telescoping product by induction, invariant over append sequences) + correspondence check"),
+ 'C17': dict(
+   text="Machine-checked theorems (props/C17.v): cum_t == e_t/e_0; aggregates over any calendar key compound to the total; drawdown == "
+        "(hwm - value)/hwm with hwm the running maximum INCLUDING the first observation; max drawdown is the maximum; duration bounds every "
+        "under-water run and is attained; mean/population variance formulas; every statistic is identical (Leibniz) when equity is scaled by "
+        "k <> 0. drawdown_def_refuted shows the pinned seed-0 loop violates the definition. Tied to /repo by performance.*, JSONStatistics and "
+        "TearsheetStatistics on random / monotone / peak-first / flat / V-shaped curves, with re-runs under scaling.",
+   note=TRUST + "sqrt / pow (Sharpe, Sortino, CAGR) are applied to the model's rationals by the harness; quantiles and plotting are not modelled. Near-constant return series (variance < 1e-12) are treated as a knife edge for the ratio statistics.",
+   design="7/C17", technique="Coq proof (fold/scan invariants, partition of products, Qred canonicity for scale invariance) + correspondence check"),
  'C19': dict(
    text="Machine-checked theorems (props/C19.v): dynamic-universe membership iff an entry time e <= t exists (inclusive; no entry = never), "
         "static universe = its list, the universe-driven alpha weights exactly the members, fixed-weight optimiser = identity, equal-weight "
